@@ -242,6 +242,23 @@ def record_args():
     for k, kw in rec:
         if "timeout" in kw and type(kw["timeout"]) is not int:
             bad.append({"section": k, "problem": "timeout not an int: %r" % (kw["timeout"],)})
+    # an invalidation reaches the backend with the arguments the section was stored with
+    del rec[:]
+    t3 = Template(src.replace("${a()}", '<%def name="o()"><%def name="n()" cached="True" cache_type="ntype" cache_region="slow">n</%def>${n()}</%def>${o()}${a()}'),
+                  cache_impl="c17rec", cache_args={"type": "memory", "dir": "/tdir", "extra": "E"})
+    t3.render()
+    stored = {k: kw for k, kw in rec}
+    del rec[:]
+    t3.cache.invalidate_def("a")
+    t3.cache.invalidate_def("b")
+    t3.cache.invalidate_def("c")
+    t3.cache.invalidate_closure("n")
+    for k, kw in rec:
+        key = k.split(":", 1)[1]
+        if stored.get(key) != kw:
+            bad.append({"section": key, "problem": "invalidated with %r, stored with %r" % (kw, stored.get(key))})
+    if len(rec) != 4:
+        bad.append({"problem": "4 invalidations asked for, the backend saw %r" % ([k for k, _ in rec],)})
     del rec[:]
     t2 = Template('<%def name="a()" cached="True">a</%def>${a()}', cache_impl="c17recctx")
     t2.render(marker=1)
@@ -251,4 +268,4 @@ def record_args():
     t.render()
     if any("context" in kw for _, kw in rec):
         bad.append({"problem": "context passed to a backend that did not ask for it"})
-    return 5, bad
+    return 9, bad
